@@ -21,7 +21,7 @@ static std::vector<Conf> &confs(int fi) {
 }
 static void setup(Runner &r, const Tier &t) {
     g_fs.clear(); g_cases.clear();
-    for (auto &sf : shipped_fonts()) { if (std::string(sf.file) == "tiny.ttf") continue; FontSet f; f.path = font_path(sf.file); f.texts = corpus_items(sf.corpus, t.thorough ? 0 : 60, true); f.texts.push_back(""); f.texts.push_back("a"); g_fs.push_back(f); }
+    for (auto &sf : shipped_fonts()) { if (std::string(sf.file) == "tiny.ttf") continue; FontSet f; f.path = font_path(sf.file); f.texts = corpus_items(sf.corpus, (t.thorough || std::string(sf.file).find("Awami") != std::string::npos) ? 0 : 60, true);  /* collision fonts: whole corpus (exclusion glyphs, kerning are reached by few lines) */ f.texts.push_back(""); f.texts.push_back("a"); g_fs.push_back(f); }
     static const uint32_t alpha[9] = { 0x61, 0x62, 0x63, 0x64, 0x65, 0x66, 0x20, 0x301, 0x300 };
     for (const char *g : { "s_full", "s_full_z", "s_full_nosub", "s_full_noglyf", "s_full_extra", "s_full_dense", "s_full_cmapedge", "s_full_pb", "s_full_bidi", "s_full_rtl_bidi", "s_full_v3", "s_full_v4", "s_full_rtl", "s_min", "feat_40_mixed" }) {
         FontSet f; f.path = gen_dir() + "/" + g + ".ttf"; int maxlen = t.thorough ? 3 : 2;
